@@ -4,6 +4,7 @@ package nsqd
 
 import (
 	"bytes"
+	"encoding/json"
 	"time"
 
 	"github.com/nsqio/nsq/internal/protocol"
@@ -571,4 +572,80 @@ func VerifC09_OversizedLineEndsTheConnection() {
 	_, terr := n.GetExistingTopic("t")
 	verifrt.Assert(terr != nil, "nothing-after-an-oversized-line-is-executed")
 	verifrt.Reach("oversized-line-refused", err != nil)
+}
+
+// IDENTIFY feature negotiation, compression level: "nsqd stays up" for every deflate_level a
+// client asks for. compress/flate knows levels -2..9 only (NewWriter returns NO writer for any
+// other, and the next flush through it would take the whole process down), so the level the real
+// IDENTIFY hands to UpgradeDeflate must be within 1..max-deflate-level for EVERY requested value:
+// the requested level if positive, else 6, and never above --max-deflate-level (1..9 by option
+// validation). The decoded IDENTIFY body is an arbitrary identifyDataV2 (symbolically the json
+// decoder is replaced by its contract: it yields the struct; natively the body is that struct's
+// real JSON); UpgradeDeflate is replaced by a recorder.
+func VerifC09_IdentifyDeflateLevel() { verifrt.Atomic(verifC09Deflate) }
+
+var verifDeflateLevels []int
+
+func verifUpgradeDeflateRec(c *clientV2, level int) error {
+	verifDeflateLevels = append(verifDeflateLevels, level)
+	return nil
+}
+
+func verifC09Deflate() {
+	o := verifOpts()
+	o.DeflateEnabled = verifrt.Choice("deflate-enabled", 4) != 0
+	o.SnappyEnabled = true
+	o.MaxBodySize = 4096
+	o.MaxDeflateLevel = 1 + verifrt.Choice("max-deflate-level", 9)
+	n := verifShellNSQD(o)
+	d := identifyDataV2{
+		FeatureNegotiation: true,
+		Deflate:            verifrt.Choice("deflate", 4) != 0,
+		DeflateLevel:       verifrt.Int("deflate_level"),
+		Snappy:             verifrt.Choice("snappy", 4) == 0,
+	}
+	body := []byte("{}")
+	if verifrt.Symbolic() {
+		verifrt.Stub("encoding/json.Unmarshal", func(data []byte, v interface{}) error {
+			*(v.(*identifyDataV2)) = d
+			return nil
+		})
+		verifrt.Stub("encoding/json.Marshal", func(v interface{}) ([]byte, error) { return []byte("{}"), nil })
+	} else {
+		body, _ = json.Marshal(d)
+	}
+	verifDeflateLevels = nil
+	verifrt.StubNative("(*github.com/nsqio/nsq/nsqd.clientV2).UpgradeDeflate", verifUpgradeDeflateRec)
+	verifrt.StubNative("(*github.com/nsqio/nsq/nsqd.clientV2).UpgradeSnappy", func(c *clientV2) error { return nil })
+	cl, _ := verifClient(n, 1, append(verifBE32(uint32(len(body))), body...))
+	p := &protocolV2{nsqd: n}
+	_, err := p.Exec(cl, [][]byte{[]byte("IDENTIFY")})
+	deflate := o.DeflateEnabled && d.Deflate
+	if deflate && d.Snappy {
+		code, fatal, _ := verifErr(err)
+		verifrt.Assert(err != nil && fatal && code == "E_IDENTIFY_FAILED" && len(verifDeflateLevels) == 0, "both-compressions-refused")
+		return
+	}
+	verifrt.Assert(err == nil, "identify-with-any-deflate-level-is-answered")
+	if !deflate {
+		verifrt.Assert(len(verifDeflateLevels) == 0, "no-deflate-unless-enabled-and-asked-for")
+		return
+	}
+	verifrt.Assert(len(verifDeflateLevels) == 1, "deflate-upgrade-happens-once")
+	if len(verifDeflateLevels) != 1 {
+		return
+	}
+	lvl := verifDeflateLevels[0]
+	want := 6
+	if d.DeflateLevel > 0 {
+		want = d.DeflateLevel
+	}
+	if want > o.MaxDeflateLevel {
+		want = o.MaxDeflateLevel
+	}
+	verifrt.Assert(lvl >= 1 && lvl <= 9, "deflate-level-is-one-compress-flate-knows")
+	verifrt.Assert(lvl <= o.MaxDeflateLevel, "deflate-level-never-above-max-deflate-level")
+	verifrt.Assert(lvl == want, "deflate-level-is-the-requested-one-clamped")
+	verifrt.Reach("requested-level-clamped-to-max", d.DeflateLevel > o.MaxDeflateLevel)
+	verifrt.Reach("default-level-clamped-to-max", d.DeflateLevel <= 0 && o.MaxDeflateLevel < 6)
 }
